@@ -1,6 +1,7 @@
 import Abverif.Proofs.C03
 import Abverif.Proofs.Lemmas.SchemaTotal
 import Abverif.Proofs.Lemmas.SchemaStrict
+import Abverif.Proofs.Lemmas.SchemaRolesSpec
 import Abverif.Proofs.Lemmas.UriGrammar
 /-
 C08 — untrusted WAMP input is either a valid message or a protocol error.  Property theorems.
@@ -253,6 +254,43 @@ theorem not_parseStrictSpec : ¬ ParseStrictSpec := by
     have := h _ σ m he
     simp [this] at hw
   · simp at hw
+
+/-! ## HELLO / WELCOME role dictionaries -/
+
+/-- **roles: accepted iff the Spec accepts.**  For any role-name list and feature table, the parse model's check of a
+`roles` value succeeds exactly on the values `rolesAccept` describes: non-empty str-keyed dict, allowed role names,
+dict-valued roles, `features` (if present) a str-keyed dict in which every *known* feature of that role is absent,
+null or a JSON bool; unknown feature names ignored; a feature named `self` not accepted. -/
+theorem roles_accept_iff (site : Str) (allowed : List Str) (feats : List (Str × List Str)) (v : WVal) :
+    isOkB (rolesCheck site allowed feats v) = rolesAccept allowed feats v :=
+  rolesCheck_isOk_iff site allowed feats v
+
+/-- HELLO: whatever `Hello.parse` accepts carries details whose `roles` satisfy the Spec for the client roles
+(`subscriber`, `publisher`, `caller`, `callee`; names and features regenerated from message.py / role.py) -/
+theorem hello_roles_spec (O : Oracles) (w : List WVal) (m : Msg) (h : Schemas.hello.parse O w = .ok m) :
+    ∃ rv, Dict.get? (Schemas.hello.optsOf w) cs!"roles" = some rv ∧ rolesAccept helloRoles roleFeatures rv = true :=
+  parse_roles_spec Schemas.hello O w m h
+    { field := cs!"roles", key := cs!"roles", ty := .roles helloRoles roleFeatures, required := true, mm := .always }
+    (by simp [Schemas.hello]) helloRoles roleFeatures rfl rfl
+
+/-- WELCOME: the same for the router roles (`broker`, `dealer`) -/
+theorem welcome_roles_spec (O : Oracles) (w : List WVal) (m : Msg) (h : Schemas.welcome.parse O w = .ok m) :
+    ∃ rv, Dict.get? (Schemas.welcome.optsOf w) cs!"roles" = some rv ∧ rolesAccept welcomeRoles roleFeatures rv = true :=
+  parse_roles_spec Schemas.welcome O w m h
+    { field := cs!"roles", key := cs!"roles", ty := .roles welcomeRoles roleFeatures, required := true, mm := .always }
+    (by simp [Schemas.welcome]) welcomeRoles roleFeatures rfl rfl
+
+/-- every role that HELLO / WELCOME admit has its feature list in the regenerated table, and each list is non-empty -/
+theorem role_tables_cover :
+    (helloRoles ++ welcomeRoles).all (fun r => !(roleKnown roleFeatures r).isEmpty) = true := by decide
+
+/-- instances: a falsy non-bool value of a known feature is rejected (ProtocolError), in HELLO and in WELCOME -/
+theorem falsy_feature_rejected :
+    errClass? (unserializeOne oracles (.list [.int 1, .str cs!"realm1",
+      .dict [(cs!"roles", .dict [(cs!"caller", .dict [(cs!"features", .dict [(cs!"call_timeout", .int 0)])])])]])) = some .protocol ∧
+    errClass? (unserializeOne oracles (.list [.int 2, .int 1,
+      .dict [(cs!"roles", .dict [(cs!"dealer", .dict [(cs!"features", .dict [(cs!"call_timeout", .str [])])])])]])) = some .protocol := by
+  decide +kernel
 
 /-! ## re-parse: the re-marshalled form of an accepted message -/
 
